@@ -1,7 +1,778 @@
-//! C13 engine (not yet built).
-use crate::common::{CaseWriter, Opts};
+//! C13 — stdlib object / type / equality functions against their documented definitions.
+//! Every case is one call `std.<fn>(args…)` evaluated from source text by the real evaluator with
+//! the real stdlib.  Arguments are *terms* (see Drv/C13.lean): JSON scalars and arrays,
+//! `{"$e":1}` = `error "x"` (only in lazy positions), `{"$fn":n}` = a function of n parameters,
+//! `{"$o":[layer,…]}` = an inheritance chain `{…} + {…}` whose fields carry `:`/`::`/`:::` and `+:`.
+//! The answer is the result dumped *lazily*: every array element / object field (hidden ones too,
+//! with their visibility) is evaluated on its own and a failing one is recorded as `{"$e":1}`.
+use std::collections::BTreeMap;
+
+use jrsonnet_evaluator::{State, Val};
+use serde_json::{json, Value};
+
+use crate::common::{guarded, new_state, CaseWriter, Opts, Rng};
+
+fn fn_text(name: &str) -> &'static str {
+	match name {
+		"key" => "function(k, v) k",
+		"val" => "function(k, v) v",
+		"pair" => "function(k, v) [k, v]",
+		"fail" => "function(k, v) error 'f'",
+		"isnull" => "function(k, v) v == null",
+		"wrap" => "function(k, v) {[k]:: v, '~': k}",
+		_ => panic!("unknown pool function {name}"),
+	}
+}
+const POOL: [&str; 6] = ["key", "val", "pair", "fail", "isnull", "wrap"];
+
+/// jsonnet source of a term
+fn src(t: &Value) -> String {
+	match t {
+		Value::Array(a) => format!("[{}]", a.iter().map(src).collect::<Vec<_>>().join(", ")),
+		Value::Object(m) => {
+			if m.contains_key("$e") {
+				"error 'x'".to_string()
+			} else if let Some(n) = m.get("$fn") {
+				match n.as_u64().expect("$fn") {
+					0 => "(function() 0)".to_string(),
+					1 => "(function(p0) 0)".to_string(),
+					2 => "(function(p0, p1=1) 0)".to_string(),
+					_ => "(function(p0, p1=1, p2=2) 0)".to_string(),
+				}
+			} else if let Some(layers) = m.get("$o") {
+				let layers = layers.as_array().expect("$o");
+				if layers.is_empty() {
+					return "{}".to_string();
+				}
+				let parts: Vec<String> = layers
+					.iter()
+					.map(|l| {
+						let fs: Vec<String> = l
+							.as_array()
+							.expect("layer")
+							.iter()
+							.map(|f| {
+								let f = f.as_array().expect("field");
+								let vis = match f[1].as_str().expect("vis") {
+									"n" => ":",
+									"h" => "::",
+									_ => ":::",
+								};
+								format!(
+									"{}{}{} {}",
+									f[0],
+									if f[2].as_bool().expect("plus") { "+" } else { "" },
+									vis,
+									src(&f[3])
+								)
+							})
+							.collect();
+						format!("{{{}}}", fs.join(", "))
+					})
+					.collect();
+				if parts.len() == 1 {
+					parts[0].clone()
+				} else {
+					format!("({})", parts.join(" + "))
+				}
+			} else {
+				panic!("bad term {t}")
+			}
+		}
+		other => other.to_string(),
+	}
+}
+
+/// lazy dump of an implementation value
+fn dump(v: &Val) -> Value {
+	match v {
+		Val::Null => Value::Null,
+		Val::Bool(b) => json!(b),
+		Val::Num(n) => {
+			let f = n.get();
+			if f.fract() == 0.0 && f.abs() < 9.0e15 && !(f == 0.0 && f.is_sign_negative()) {
+				json!(f as i64)
+			} else {
+				json!({"$f": format!("{:016x}", f.to_bits())})
+			}
+		}
+		Val::Str(s) => json!(s.to_string()),
+		Val::Arr(a) => {
+			let mut out = Vec::with_capacity(a.len());
+			for i in 0..a.len() {
+				out.push(match guarded(|| a.get(i)) {
+					Ok(Ok(Some(e))) => dump(&e),
+					Ok(Ok(None)) => json!({"$missing": i}),
+					Ok(Err(_)) => json!({"$e": 1}),
+					Err(p) => json!({"$panic": p}),
+				});
+			}
+			Value::Array(out)
+		}
+		Val::Obj(o) => {
+			let mut out = Vec::new();
+			for k in o.fields_ex(
+				true,
+				#[cfg(feature = "exp-preserve-order")]
+				false,
+			) {
+				let hidden = !o.has_field_ex(k.clone(), false);
+				let fv = match guarded(|| o.get(k.clone())) {
+					Ok(Ok(Some(e))) => dump(&e),
+					Ok(Ok(None)) => json!({"$missing": 1}),
+					Ok(Err(_)) => json!({"$e": 1}),
+					Err(p) => json!({"$panic": p}),
+				};
+				out.push(json!([k.to_string(), hidden, fv]));
+			}
+			json!({ "$o": out })
+		}
+		Val::Func(f) => json!({"$fn": f.params().len()}),
+		#[allow(unreachable_patterns)]
+		_ => json!({"$other": 1}),
+	}
+}
+
+/// source text of the call described by `op`
+fn source(op: &Value) -> String {
+	let fname = op["fn"].as_str().expect("fn");
+	let a: Vec<String> = op["a"].as_array().expect("a").iter().map(src).collect();
+	match fname {
+		"mapWithKey" => format!(
+			"std.mapWithKey({}, {})",
+			fn_text(op["f"].as_str().expect("f")),
+			a[0]
+		),
+		"equalsSame" => format!("local a = {}; std.equals(a, a)", a[0]),
+		_ => format!("std.{fname}({})", a.join(", ")),
+	}
+}
+
+fn run_case(s: &State, op: &Value) -> Value {
+	let code = source(op);
+	match guarded(|| -> Result<Value, String> {
+		let v = s
+			.evaluate_snippet("<c13>".to_owned(), code.clone())
+			.map_err(|e| format!("{}", e.error()))?;
+		Ok(dump(&v))
+	}) {
+		Ok(Ok(v)) => json!({ "ok": v }),
+		Ok(Err(msg)) => json!({ "err": 1, "_msg": msg, "_src": code }),
+		Err(p) => json!({ "panic": p, "_src": code }),
+	}
+}
+
+// ---------------------------------------------------------------------------------------------
+// term constructors
+
+fn e() -> Value {
+	json!({"$e": 1})
+}
+fn func(n: u64) -> Value {
+	json!({ "$fn": n })
+}
+fn fld(name: &str, vis: &str, plus: bool, v: Value) -> Value {
+	json!([name, vis, plus, v])
+}
+/// one-layer object from (name, vis, value)
+fn o1(fs: &[(&str, &str, Value)]) -> Value {
+	json!({"$o": [fs.iter().map(|(n, v, t)| fld(n, v, false, t.clone())).collect::<Vec<_>>()]})
+}
+fn chain(layers: Vec<Vec<Value>>) -> Value {
+	json!({ "$o": layers })
+}
+fn empty() -> Value {
+	json!({"$o": []})
+}
+
+// "ￜ" (U+FFDC) < "😀" (U+1F600) by code point, the other way round by UTF-16 unit
+const NAMES: [&str; 10] = ["a", "b", "c", "B", "", "ab", "é", "z", "😀", "ￜ"];
+/// names probed as keys: every generated name, plus ones that never exist
+const ABSENT: [&str; 3] = ["zz", "A", "key"];
+
+fn scalar(rng: &mut Rng) -> Value {
+	match rng.below(12) {
+		0 => Value::Null,
+		1 => json!(true),
+		2 => json!(false),
+		3 => json!(0),
+		4 => json!(1),
+		5 => json!(-1),
+		6 => json!(2),
+		7 => json!(""),
+		8 => json!("a"),
+		9 => json!("é"),
+		10 => json!("ab"),
+		_ => Value::Null,
+	}
+}
+
+fn gen_val(rng: &mut Rng, depth: usize, lazy: bool) -> Value {
+	let r = rng.below(100);
+	if lazy && r < 10 {
+		return e();
+	}
+	if r < 14 {
+		return func(rng.below(3) as u64);
+	}
+	if depth == 0 || r < 50 {
+		return scalar(rng);
+	}
+	if r < 70 {
+		let n = rng.below(4);
+		return Value::Array((0..n).map(|_| gen_val(rng, depth - 1, true)).collect());
+	}
+	gen_obj(rng, depth - 1)
+}
+
+fn gen_layer(rng: &mut Rng, depth: usize, max_fields: usize) -> Vec<Value> {
+	let n = rng.below(max_fields + 1);
+	let mut used: Vec<&str> = Vec::new();
+	let mut out = Vec::new();
+	for _ in 0..n {
+		// "p": numbers only (may be `p+:`), "q": arrays only (may be `q+:`)
+		let r = rng.below(NAMES.len() + 2);
+		let name = if r < NAMES.len() { NAMES[r] } else if r == NAMES.len() { "p" } else { "q" };
+		if used.contains(&name) {
+			continue;
+		}
+		used.push(name);
+		let vis = match rng.below(20) {
+			0..=11 => "n",
+			12..=16 => "h",
+			_ => "u",
+		};
+		let (plus, v) = match name {
+			"p" => (
+				rng.chance(1, 2),
+				if rng.chance(1, 8) { e() } else { json!(rng.range(-2, 3)) },
+			),
+			"q" => (
+				rng.chance(1, 2),
+				if rng.chance(1, 8) {
+					e()
+				} else {
+					Value::Array((0..rng.below(3)).map(|_| gen_val(rng, 0, true)).collect())
+				},
+			),
+			_ => (false, gen_val(rng, depth, true)),
+		};
+		out.push(fld(name, vis, plus, v));
+	}
+	out
+}
+
+fn gen_obj(rng: &mut Rng, depth: usize) -> Value {
+	let layers = match rng.below(10) {
+		0 => 0,
+		1..=4 => 1,
+		5..=7 => 2,
+		_ => 3,
+	};
+	chain((0..layers).map(|_| gen_layer(rng, depth, 4)).collect())
+}
+
+/// a patch aimed at `target`: reuses its names with nulls / nested patches / replacements
+fn gen_patch(rng: &mut Rng, target: &Value, depth: usize) -> Value {
+	let mut names: Vec<String> = Vec::new();
+	if let Some(layers) = target.get("$o").and_then(Value::as_array) {
+		for l in layers {
+			for f in l.as_array().expect("layer") {
+				let n = f[0].as_str().expect("name").to_string();
+				if !names.contains(&n) {
+					names.push(n);
+				}
+			}
+		}
+	}
+	let mut layer = Vec::new();
+	let mut used: Vec<String> = Vec::new();
+	let n = rng.below(4) + usize::from(!names.is_empty());
+	for _ in 0..n {
+		let name = if !names.is_empty() && rng.chance(3, 4) {
+			rng.pick(&names).clone()
+		} else {
+			(*rng.pick(&NAMES)).to_string()
+		};
+		// "p"/"q" are reserved for `+:` fields of one value kind (see gen_layer)
+		if used.contains(&name) || name == "p" || name == "q" {
+			continue;
+		}
+		used.push(name.clone());
+		let vis = match rng.below(10) {
+			0..=6 => "n",
+			7..=8 => "h",
+			_ => "u",
+		};
+		let v = match rng.below(10) {
+			0..=2 => Value::Null,
+			3..=5 if depth > 0 => {
+				// nested patch against the target's field of that name (if it is an object term)
+				let sub = target
+					.get("$o")
+					.and_then(Value::as_array)
+					.and_then(|ls| {
+						ls.iter().rev().find_map(|l| {
+							l.as_array().unwrap().iter().find(|f| f[0] == json!(name)).map(|f| f[3].clone())
+						})
+					})
+					.unwrap_or(Value::Null);
+				gen_patch(rng, &sub, depth - 1)
+			}
+			_ => gen_val(rng, 1, true),
+		};
+		layer.push(fld(&name, vis, false, v));
+	}
+	if rng.chance(1, 6) {
+		// a second layer re-declaring one field with another visibility
+		let extra = gen_layer(rng, 1, 2);
+		chain(vec![layer, extra])
+	} else {
+		chain(vec![layer])
+	}
+}
+
+fn term_size(t: &Value) -> usize {
+	match t {
+		Value::Array(a) => 1 + a.iter().map(term_size).sum::<usize>(),
+		Value::Object(m) => 1 + m.values().map(term_size).sum::<usize>(),
+		_ => 1,
+	}
+}
+
+fn has_hidden(t: &Value) -> bool {
+	match t {
+		Value::Array(a) => a.iter().any(|x| x == &json!("h") || has_hidden(x)),
+		Value::Object(m) => m.values().any(has_hidden),
+		_ => false,
+	}
+}
+fn layers_of(t: &Value) -> usize {
+	t.get("$o").and_then(Value::as_array).map_or(0, Vec::len)
+}
+
+struct Gen<'a> {
+	s: &'a State,
+	w: CaseWriter,
+	hist: BTreeMap<String, usize>,
+	outcome: BTreeMap<&'static str, usize>,
+	layer_hist: BTreeMap<usize, usize>,
+	with_hidden: usize,
+	with_err_leaf: usize,
+}
+impl Gen<'_> {
+	fn emit(&mut self, fname: &str, a: Vec<Value>, f: Option<&str>) {
+		let size: usize = 1 + a.iter().map(term_size).sum::<usize>();
+		for t in &a {
+			if t.get("$o").is_some() {
+				*self.layer_hist.entry(layers_of(t)).or_default() += 1;
+			}
+		}
+		if a.iter().any(has_hidden) {
+			self.with_hidden += 1;
+		}
+		if a.iter().any(|t| t.to_string().contains("$e")) {
+			self.with_err_leaf += 1;
+		}
+		let mut op = json!({"op":"c13.call","fn":fname,"a":a,"size":size});
+		if let Some(f) = f {
+			op["f"] = json!(f);
+		}
+		let ans = run_case(self.s, &op);
+		*self.hist.entry(fname.to_string()).or_default() += 1;
+		*self
+			.outcome
+			.entry(if ans.get("ok").is_some() {
+				"ok"
+			} else if ans.get("err").is_some() {
+				"err"
+			} else {
+				"panic"
+			})
+			.or_default() += 1;
+		self.w.case(op, ans);
+	}
+
+	/// every object function on one object, with keys that are visible / hidden / absent
+	fn object_ops(&mut self, o: &Value, keys: &[String]) {
+		for f in [
+			"objectFields",
+			"objectFieldsAll",
+			"objectValues",
+			"objectValuesAll",
+			"objectKeysValues",
+			"objectKeysValuesAll",
+			"length",
+			"prune",
+		] {
+			self.emit(f, vec![o.clone()], None);
+		}
+		for h in [json!(true), json!(false)] {
+			self.emit("objectFieldsEx", vec![o.clone(), h], None);
+		}
+		for k in keys {
+			let k = json!(k);
+			self.emit("objectHas", vec![o.clone(), k.clone()], None);
+			self.emit("objectHasAll", vec![o.clone(), k.clone()], None);
+			for h in [json!(true), json!(false)] {
+				self.emit("objectHasEx", vec![o.clone(), k.clone(), h.clone()], None);
+				self.emit("get", vec![o.clone(), k.clone(), json!(7), h.clone()], None);
+				self.emit("get", vec![o.clone(), k.clone(), e(), h], None);
+			}
+			self.emit("get", vec![o.clone(), k.clone()], None);
+			self.emit("get", vec![o.clone(), k.clone(), json!("d")], None);
+			self.emit("get", vec![o.clone(), k.clone(), e()], None);
+			self.emit("objectRemoveKey", vec![o.clone(), k.clone()], None);
+		}
+	}
+	fn map_ops(&mut self, o: &Value) {
+		for f in POOL {
+			self.emit("mapWithKey", vec![o.clone()], Some(f));
+		}
+	}
+	fn value_ops(&mut self, v: &Value) {
+		for f in [
+			"length",
+			"type",
+			"isString",
+			"isNumber",
+			"isBoolean",
+			"isObject",
+			"isArray",
+			"isFunction",
+			"isNull",
+			"prune",
+			"equalsSame",
+		] {
+			self.emit(f, vec![v.clone()], None);
+		}
+	}
+	fn eq_ops(&mut self, a: &Value, b: &Value) {
+		for f in ["equals", "primitiveEquals", "assertEqual"] {
+			self.emit(f, vec![a.clone(), b.clone()], None);
+		}
+	}
+}
+
+fn keys_for(o: &Value, rng: &mut Rng, all: bool) -> Vec<String> {
+	let mut keys: Vec<String> = Vec::new();
+	if let Some(layers) = o.get("$o").and_then(Value::as_array) {
+		for l in layers {
+			for f in l.as_array().expect("layer") {
+				let n = f[0].as_str().expect("name").to_string();
+				if !keys.contains(&n) {
+					keys.push(n);
+				}
+			}
+		}
+	}
+	if !all && keys.len() > 2 {
+		let i = rng.below(keys.len());
+		let j = rng.below(keys.len());
+		keys = vec![keys[i].clone(), keys[j].clone()];
+		keys.dedup();
+	}
+	keys.push((*rng.pick(&ABSENT)).to_string());
+	keys
+}
+
+/// the fixed list of values used for the exhaustive pair/unary families
+fn value_list() -> Vec<Value> {
+	vec![
+		Value::Null,
+		json!(true),
+		json!(false),
+		json!(0),
+		json!(1),
+		json!(-1),
+		json!(""),
+		json!("a"),
+		json!("é"),
+		json!("aé😀b"),
+		json!("1"),
+		json!([]),
+		json!([1]),
+		json!([1, 2]),
+		json!([2, 1]),
+		json!([null]),
+		json!([[]]),
+		json!([1, "a"]),
+		json!([e()]),
+		json!([1, e()]),
+		json!([2, e()]),
+		json!([func(1)]),
+		json!([[], empty(), null]),
+		func(0),
+		func(1),
+		func(2),
+		empty(),
+		o1(&[("a", "n", json!(1))]),
+		o1(&[("a", "n", json!(2))]),
+		o1(&[("a", "h", json!(1))]),
+		o1(&[("a", "u", json!(1))]),
+		o1(&[("b", "n", json!(1))]),
+		o1(&[("a", "n", json!(1)), ("b", "h", json!(2))]),
+		o1(&[("a", "n", json!(1)), ("b", "h", e())]),
+		o1(&[("b", "n", json!(2)), ("a", "n", json!(1))]),
+		o1(&[("a", "n", json!(1)), ("b", "n", json!(2))]),
+		o1(&[("a", "n", json!(1)), ("b", "n", json!(3))]),
+		o1(&[("a", "n", e())]),
+		o1(&[("a", "n", json!(2)), ("b", "n", e())]),
+		o1(&[("a", "n", Value::Null)]),
+		o1(&[("a", "n", json!([]))]),
+		o1(&[("a", "n", empty())]),
+		o1(&[("a", "n", o1(&[("b", "h", json!(1))]))]),
+		o1(&[("a", "n", o1(&[("b", "n", Value::Null)]))]),
+		o1(&[("a", "n", o1(&[("b", "n", json!(1))]))]),
+		o1(&[("a", "n", json!([null, [], empty()])), ("c", "n", json!([0, [null], "x"]))]),
+		o1(&[("a", "n", func(1))]),
+		chain(vec![vec![fld("a", "n", false, json!(1))], vec![fld("a", "h", false, json!(1))]]),
+		chain(vec![vec![fld("a", "h", false, json!(1))], vec![fld("a", "n", false, json!(1))]]),
+		chain(vec![vec![fld("a", "h", false, json!(5))], vec![fld("a", "u", false, json!(1))]]),
+		chain(vec![vec![fld("p", "n", false, json!(1))], vec![fld("p", "n", true, json!(1))]]),
+		chain(vec![vec![fld("p", "h", false, json!(1))], vec![fld("p", "n", true, json!(1))]]),
+		chain(vec![vec![fld("q", "n", false, json!([1]))], vec![fld("q", "u", true, json!([e()]))]]),
+		o1(&[("B", "n", json!(1)), ("a", "n", json!(2)), ("", "n", json!(3)), ("ab", "n", json!(4)), ("é", "n", json!(5))]),
+		o1(&[("😀", "n", json!(1)), ("ￜ", "n", json!(2)), ("z", "h", json!(3)), ("é", "u", json!(4))]),
+	]
+}
+
+fn merge_targets() -> Vec<Value> {
+	let ob1 = o1(&[("b", "n", json!(1))]);
+	vec![
+		Value::Null,
+		json!(3),
+		json!("s"),
+		json!([1]),
+		func(1),
+		empty(),
+		o1(&[("a", "n", json!(1))]),
+		o1(&[("a", "h", json!(1))]),
+		o1(&[("a", "u", json!(1))]),
+		o1(&[("a", "n", ob1.clone())]),
+		o1(&[("a", "h", ob1.clone())]),
+		o1(&[("a", "n", json!(1)), ("b", "n", json!(2))]),
+		o1(&[("a", "n", json!(1)), ("b", "h", json!(2))]),
+		o1(&[("a", "n", e()), ("b", "n", json!(1))]),
+		o1(&[("a", "h", e()), ("b", "n", json!(1))]),
+		o1(&[("a", "n", o1(&[("b", "n", json!(1)), ("c", "h", json!(2))]))]),
+		o1(&[("a", "n", o1(&[("b", "n", e()), ("c", "n", json!(2))]))]),
+		o1(&[("a", "n", Value::Null)]),
+		o1(&[("a", "n", json!([1, e()]))]),
+		chain(vec![vec![fld("a", "n", false, json!(1))], vec![fld("a", "h", false, json!(2))]]),
+		chain(vec![vec![fld("a", "h", false, json!(1))], vec![fld("a", "u", false, json!(2))]]),
+		chain(vec![vec![fld("a", "h", false, ob1.clone())], vec![fld("a", "n", false, ob1)]]),
+		o1(&[("z", "n", json!(1)), ("B", "n", json!(2)), ("", "n", json!(3))]),
+	]
+}
+
+fn merge_patches() -> Vec<Value> {
+	let c3 = o1(&[("c", "n", json!(3))]);
+	vec![
+		Value::Null,
+		json!(3),
+		json!("s"),
+		json!([1]),
+		json!([null, e()]),
+		func(1),
+		empty(),
+		o1(&[("a", "n", json!(2))]),
+		o1(&[("a", "h", json!(2))]),
+		o1(&[("a", "u", json!(2))]),
+		o1(&[("a", "n", Value::Null)]),
+		o1(&[("a", "h", Value::Null)]),
+		o1(&[("a", "n", c3.clone())]),
+		o1(&[("a", "h", c3.clone())]),
+		o1(&[("a", "n", o1(&[("b", "n", Value::Null)]))]),
+		o1(&[("a", "n", o1(&[("b", "h", Value::Null)]))]),
+		o1(&[("a", "n", o1(&[("b", "n", Value::Null), ("c", "n", Value::Null)]))]),
+		o1(&[("a", "n", o1(&[("b", "n", o1(&[("c", "n", Value::Null)]))]))]),
+		o1(&[("b", "n", Value::Null)]),
+		o1(&[("b", "h", Value::Null)]),
+		o1(&[("z", "n", Value::Null)]),
+		o1(&[("a", "n", e())]),
+		o1(&[("a", "h", e())]),
+		o1(&[("a", "n", o1(&[("b", "n", e())]))]),
+		o1(&[("a", "n", json!([null]))]),
+		o1(&[("a", "n", empty())]),
+		o1(&[("a", "n", func(0))]),
+		o1(&[("c", "n", json!(9)), ("A", "n", json!(8)), ("a", "n", Value::Null)]),
+		chain(vec![vec![fld("a", "n", false, json!(5))], vec![fld("a", "h", false, json!(6))]]),
+		chain(vec![vec![fld("a", "h", false, Value::Null)], vec![fld("a", "u", false, Value::Null)]]),
+		chain(vec![vec![fld("a", "h", false, c3)], vec![fld("b", "n", false, Value::Null)]]),
+	]
+}
 
 pub fn run(opts: &Opts) {
-	let w = CaseWriter::new(&opts.out);
-	w.finish(serde_json::json!({"engine":"c13","cases":0,"rule":"stub"}), &opts.out);
+	let s = new_state();
+	let _g = s.enter();
+	if let Some(path) = &opts.replay {
+		let text = std::fs::read_to_string(path).expect("replay file");
+		let v: Value = serde_json::from_str(&text).expect("replay json");
+		let op = v.get("op").cloned().unwrap_or(v);
+		let mut w = CaseWriter::new(&opts.out);
+		let ans = run_case(&s, &op);
+		println!("source: {}", source(&op));
+		println!("implementation: {ans}");
+		w.case(op, ans);
+		w.finish(json!({"engine":"c13","cases":1,"rule":"replay"}), &opts.out);
+		return;
+	}
+	let thorough = opts.thorough();
+	let mut rng = Rng::new(opts.seed);
+	let mut g = Gen {
+		s: &s,
+		w: CaseWriter::new(&opts.out),
+		hist: BTreeMap::new(),
+		outcome: BTreeMap::new(),
+		layer_hist: BTreeMap::new(),
+		with_hidden: 0,
+		with_err_leaf: 0,
+	};
+
+	// ---- (A) every visibility history of one field over up to three layers ---------------------
+	// layer choice: absent | `:` | `::` | `:::`  (+ a constant visible neighbour "b", hidden "c")
+	let choices = ["-", "n", "h", "u"];
+	for c0 in choices {
+		for c1 in choices {
+			for c2 in choices {
+				let mut layers: Vec<Vec<Value>> = Vec::new();
+				for (i, c) in [c0, c1, c2].iter().enumerate() {
+					let mut l = Vec::new();
+					if *c != "-" {
+						l.push(fld("a", c, false, json!(i as i64 + 1)));
+					}
+					if i == 0 {
+						l.push(fld("b", "n", false, json!("x")));
+						l.push(fld("c", "h", false, e()));
+					}
+					layers.push(l);
+				}
+				let o = chain(layers);
+				let keys: Vec<String> = ["a", "b", "c", "zz"].iter().map(|s| (*s).to_string()).collect();
+				g.object_ops(&o, &keys);
+				g.map_ops(&o);
+				g.emit("mergePatch", vec![o.clone(), o1(&[("a", "n", json!(9)), ("c", "n", Value::Null)])], None);
+				g.emit("mergePatch", vec![o1(&[("a", "n", json!(9)), ("c", "n", json!(1))]), o.clone()], None);
+				g.emit("equals", vec![o.clone(), o1(&[("a", "n", json!(3)), ("b", "n", json!("x"))])], None);
+			}
+		}
+	}
+
+	// ---- (B) mergePatch: all pairs of the fixed targets and patches ---------------------------
+	let targets = merge_targets();
+	let patches = merge_patches();
+	for t in &targets {
+		for p in &patches {
+			g.emit("mergePatch", vec![t.clone(), p.clone()], None);
+		}
+	}
+
+	// ---- (C,D,E) fixed value list: unary functions, all equality pairs -------------------------
+	let vals = value_list();
+	for v in &vals {
+		g.value_ops(v);
+		if v.get("$o").is_some() {
+			let keys = keys_for(v, &mut rng, true);
+			g.object_ops(v, &keys);
+			g.map_ops(v);
+		}
+	}
+	for a in &vals {
+		for b in &vals {
+			g.eq_ops(a, b);
+		}
+	}
+
+	// ---- (F) xor / xnor ---------------------------------------------------------------------
+	let boolish = [json!(true), json!(false), Value::Null, json!(1), json!("a")];
+	for x in &boolish {
+		for y in &boolish {
+			g.emit("xor", vec![x.clone(), y.clone()], None);
+			g.emit("xnor", vec![x.clone(), y.clone()], None);
+		}
+	}
+
+	// ---- (H) malformed: wrong argument types ------------------------------------------------
+	let wrong = [Value::Null, json!(1), json!("a"), json!([1]), func(1), json!(true)];
+	let sample = o1(&[("a", "n", json!(1)), ("b", "h", json!(2))]);
+	for w in &wrong {
+		for f in [
+			"objectFields",
+			"objectFieldsAll",
+			"objectValues",
+			"objectValuesAll",
+			"objectKeysValues",
+			"objectKeysValuesAll",
+		] {
+			g.emit(f, vec![w.clone()], None);
+		}
+		g.emit("objectFieldsEx", vec![w.clone(), json!(true)], None);
+		g.emit("objectFieldsEx", vec![sample.clone(), w.clone()], None);
+		g.emit("objectHas", vec![w.clone(), json!("a")], None);
+		g.emit("objectHasAll", vec![w.clone(), json!("a")], None);
+		g.emit("objectHasEx", vec![w.clone(), json!("a"), json!(true)], None);
+		g.emit("objectHasEx", vec![sample.clone(), json!("a"), w.clone()], None);
+		g.emit("get", vec![w.clone(), json!("a")], None);
+		g.emit("get", vec![sample.clone(), json!("a"), json!(1), w.clone()], None);
+		g.emit("objectRemoveKey", vec![w.clone(), json!("a")], None);
+		g.emit("mapWithKey", vec![w.clone()], Some("key"));
+		if !w.is_string() {
+			g.emit("objectHas", vec![sample.clone(), w.clone()], None);
+			g.emit("objectHasAll", vec![sample.clone(), w.clone()], None);
+			g.emit("get", vec![sample.clone(), w.clone()], None);
+			g.emit("objectRemoveKey", vec![sample.clone(), w.clone()], None);
+		}
+	}
+
+	// ---- (G) seeded random ----------------------------------------------------------------------
+	let n_obj = if thorough { 6000 } else { 700 };
+	for i in 0..n_obj {
+		let o = gen_obj(&mut rng, 2);
+		let keys = keys_for(&o, &mut rng, i % 8 == 0);
+		g.object_ops(&o, &keys);
+		if i % 2 == 0 {
+			g.map_ops(&o);
+		}
+	}
+	let n_merge = if thorough { 40000 } else { 5000 };
+	for i in 0..n_merge {
+		let t = if i % 10 == 0 { gen_val(&mut rng, 2, false) } else { gen_obj(&mut rng, 2) };
+		let p = if i % 7 == 0 { gen_val(&mut rng, 2, false) } else { gen_patch(&mut rng, &t, 2) };
+		g.emit("mergePatch", vec![t, p], None);
+	}
+	let n_val = if thorough { 20000 } else { 2500 };
+	for i in 0..n_val {
+		let a = gen_val(&mut rng, 3, false);
+		g.emit("prune", vec![a.clone()], None);
+		if i % 4 == 0 {
+			g.value_ops(&a);
+		}
+		// equality against: itself, an independent value, itself with extra hidden fields
+		g.eq_ops(&a, &a);
+		let b = gen_val(&mut rng, 3, false);
+		g.eq_ops(&a, &b);
+		if let Some(layers) = a.get("$o").and_then(Value::as_array) {
+			let mut ls: Vec<Vec<Value>> =
+				layers.iter().map(|l| l.as_array().unwrap().clone()).collect();
+			ls.insert(0, vec![fld("hid", "h", false, e())]);
+			let a2 = chain(ls);
+			g.eq_ops(&a, &a2);
+			g.eq_ops(&a2, &a);
+		}
+	}
+
+	let cases = g.w.n;
+	let meta = json!({
+		"engine": "c13",
+		"cases": cases,
+		"rule": "every visibility history (absent/:/::/:::)^3 of one field x all object functions x keys {visible,hidden,absent}; all pairs of 23 fixed targets x 31 fixed patches for mergePatch; all pairs of 55 fixed values for equals/primitiveEquals/assertEqual; xor/xnor over {true,false,null,1,'a'}^2; wrong-typed arguments; seeded random inheritance chains (<=3 layers, <=4 fields, nested depth 2, `+:` on number/array fields, failing thunks in lazy positions) with patches derived from the target",
+		"functions": g.hist,
+		"outcomes": g.outcome,
+		"object_args_by_layer_count": g.layer_hist,
+		"cases_with_hidden_fields": g.with_hidden,
+		"cases_with_failing_thunks": g.with_err_leaf,
+		"seed": opts.seed,
+	});
+	g.w.finish(meta, &opts.out);
 }
